@@ -3,7 +3,7 @@ from ..syn import es, pat_s
 from ..terms import term_s, subterms, strip_refs
 from ..walk import ctx_s
 from ..facts import atom_s
-from ..parsers import _under
+from ..parsers import bool_fields_of_self, switch_of_cond, _under
 
 UNION_BYTEWISE = ('Debug', 'PartialEq', 'Hash')
 
@@ -179,16 +179,14 @@ def extra_switches(cx, m):
     fw = m.fw
     for ev in fw.events:
         if ev.kind == 'branch' and ev.pos['k'] == 'if':
-            t = es(ev.node['cond']).replace(' ', '')
-            neg = t.startswith('!')
-            t = t.lstrip('!')
-            if t.startswith('self.enable_'):
-                sw = t[len('self.'):]
+            sc_ = switch_of_cond(es(ev.node['cond']), bool_fields_of_self(cx, fw.fn))
+            if sc_ is not None:
+                sw = sc_[0]
                 inner = [e for e in fw.events if _under(e, ev.pos['id'], pol=True)]
                 if any(e.kind == 'let' and e.node.get('ty') is not None and 'UnsafePunctuatedMeta' in str(e.node['ty'].get('text')) for e in inner) or \
                         any(e.kind == 'assign' and es(e.target) == 'has_unsafe' for e in inner):
                     out['unsafe'] = sw
-                if sw == 'enable_types':
+                if sw.endswith('_types'):
                     out['types'] = sw
     return out
 
@@ -217,11 +215,14 @@ def check(cx, facts, rep, models):
         sw = switch_names(m)
         sw.update(extra_switches(cx, m))
         # every switch the builder struct declares must be accounted for
-        declared = [fld['member'] for fld in (s.struct['fields'] if s.struct else []) if str(fld['member']).startswith('enable_')]
+        bf = bool_fields_of_self(cx, m.fw.fn)
         by_switch = {}
         for key, swname in sw.items():
             if swname:
                 by_switch.setdefault(swname, []).append(key)
+        # a switch = a bool field of the builder that guards a parameter / form in the parser (other bool fields are default values,
+        # e.g. named_field); a field following the `enable_*` convention that guards nothing is reported
+        declared = [fld['member'] for fld in (s.struct['fields'] if s.struct else []) if str(fld['member']) in bf and (str(fld['member']) in by_switch or str(fld['member']).startswith('enable_'))]
         allok = True
         for swname in declared:
             keys = by_switch.get(swname)
